@@ -36,10 +36,55 @@ class Color(enum.IntEnum):
     BIG = 10 ** 12
 
 
+class Geometry:
+    """namespace for subclasses whose qualified name has two parts and whose module is the running script (`__main__`): they are
+    printed by their qualified name alone, which must keep both parts"""
+
+
+class Outer:
+    """the same for classes nested in an importable module (`subclasses.Outer.NList`)"""
+
+
+NESTED = {}
+for _b in (list, tuple, set, dict, str, int):
+    for _where, _mod in ((Geometry, '__main__'), (Outer, __name__)):
+        _n = 'N' + _b.__name__.capitalize()
+        _c = type(_n, (_b,), {})
+        _c.__module__ = _mod
+        _c.__qualname__ = _where.__name__ + '.' + _n
+        setattr(_where, _n, _c)
+        NESTED[(_b, _mod)] = _c
+
+
+# the classes that claim to live in `__main__` must be found there (pickling between worker processes, evaluation of printed text)
+if not hasattr(sys.modules['__main__'], 'Geometry'):
+    sys.modules['__main__'].Geometry = Geometry
+
+
 def make(rng, base, value):
     """an instance of a random subclass of `base` holding `value`"""
+    if rng.random() < 0.12 and (base, '__main__') in NESTED:
+        return NESTED[(base, rng.choice(['__main__', __name__]))](value)
     cls = FAMILY[(base, rng.choice(['plain', 'plain', 'repr', 'str', 'both']))]
     return cls(value)
+
+
+class BuiltinProxy:
+    """stands for a built-in type in the scope in which printed calls are evaluated: `dict.fromkeys(...)` there gives back the
+    CallObj that was printed (callee = the real built-in method), while `dict(...)` still builds a dict"""
+
+    def __init__(self, real):
+        self._real = real
+
+    def __call__(self, *a, **k):
+        return self._real(*a, **k)
+
+    def __getattr__(self, name):
+        meth = getattr(self._real, name)
+        return lambda *a, **k: CallObj(meth, a, list(k.items()))
+
+
+BUILTIN_METHODS = [dict.fromkeys, bytes.fromhex, int.from_bytes, str.maketrans, float.fromhex]
 
 
 # ---- call-style printing (C17) -------------------------------------------------------------
